@@ -176,6 +176,56 @@ func runC03(r *ev.Run, thorough bool) int {
 			r.Sample(map[string]interface{}{"bundle_hex": hex.EncodeToString(enc)})
 		}
 	}
+	// (1a) large blocks (the CRC covers the whole block, however long): payloads whose block encoding crosses the
+	// 4 KiB / 32 KiB / 64 KiB / 128 KiB marks, both CRC types: the written CRC equals the reference, and a single-bit
+	// flip at every byte offset in a window around each power-of-two mark of the encoding (and at the mark of the
+	// payload block itself) is rejected
+	var nLarge int64
+	for _, pl := range []int{4090, 32760, 65500, 65536, 70000, 131100} {
+		for _, ct := range []uint64{1, 2} {
+			sp := gen.Spec{Dst: "dtn://dst/", Src: "dtn://src/", Rpt: "ipn:2.3", PCRC: ct, Time: DtnNow(), Seq: uint64(pl), Lifetime: 3600000, PayLen: pl, PayCRC: ct}
+			b := sp.Build()
+			enc, err := gen.Ser(&b)
+			if err != nil {
+				r.Violation("C03/harness", "none", err.Error(), nil)
+				continue
+			}
+			nSer++
+			if bad, err := ref.CRCMismatches(enc); err != nil || len(bad) > 0 {
+				r.Violation("C03/serialiser-crc-differs-from-reference", "ser", fmt.Sprintf("payload of %d octets, CRC type %d: %v %v", pl, ct, bad, err), map[string]interface{}{"payload_len": pl, "crc": ct})
+				continue
+			}
+			rgs, rerr := blockRanges(enc)
+			if rerr != nil || len(rgs) == 0 {
+				r.Violation("C03/harness", "none", fmt.Sprint(rerr), nil)
+				continue
+			}
+			pay := rgs[len(rgs)-1]
+			offs := map[int]bool{}
+			for _, mark := range []int{4096, 32768, 65536, 131072} {
+				for d := -12; d <= 12; d++ {
+					for _, base := range []int{0, pay[0]} {
+						if o := base + mark + d; o >= pay[0] && o < pay[1] {
+							offs[o] = true
+						}
+					}
+				}
+			}
+			for o := range offs {
+				m := append([]byte{}, enc...)
+				m[o] ^= 1 << uint(o%8)
+				nLarge++
+				nFlip++
+				if k, d, rej := c03Judge(enc, m, true, rgs, o*8, 1); k != "" {
+					r.Violation(k+":large-block", "flip", fmt.Sprintf("payload of %d octets, CRC type %d, byte offset %d (block offset %d): %s", pl, ct, o, o-pay[0], d), map[string]interface{}{"payload_len": pl, "crc": ct, "byte": o})
+					break
+				} else if rej {
+					nRejected++
+				}
+			}
+		}
+	}
+	r.Add("large_block_flips", nLarge)
 	for _, ct := range []bpv7.CRCType{bpv7.CRCNo, bpv7.CRC16, bpv7.CRC32} {
 		for _, frag := range []bool{false, true} {
 			bb := bpv7.Builder().CRC(ct).Source("dtn://src/").Destination("dtn://dst/").CreationTimestampNow().Lifetime("10m").PayloadBlock([]byte("hello"))
@@ -409,7 +459,7 @@ func runC03(r *ev.Run, thorough bool) int {
 	return r.Finish(map[string]interface{}{
 		"evaluations":         nFlip + nBurst + nSer,
 		"distinct_nontrivial": nFlip + nBurst,
-		"rule":                fmt.Sprintf("%d fully CRC-protected bundles (all CRC-16/32 mixes, fragments, every block type, payload 0..300): every single-bit flip of the encoding; every burst = (start bit, length 2..CRC width of the covering block, interior pattern), ALL interior patterns for length <= %d and 8 structured patterns above; each corruption is distinct and non-trivial (the encoding differs from the original); accepted corruptions are judged by an independent CRC over independently delimited blocks", len(specs), maxFull),
+		"rule":                fmt.Sprintf("%d fully CRC-protected bundles (all CRC-16/32 mixes, fragments, every block type, payload 0..300): every single-bit flip of the encoding; every burst = (start bit, length 2..CRC width of the covering block, interior pattern), ALL interior patterns for length <= %d and 8 structured patterns above; each corruption is distinct and non-trivial (the encoding differs from the original); accepted corruptions are judged by an independent CRC over independently delimited blocks; plus payload blocks of 4090..131100 octets (both CRC types): written CRC = reference, single-bit flips at every byte within 12 of the 4/32/64/128 KiB marks of the encoding and of the block rejected", len(specs), maxFull),
 	}, []string{"bitwise CRC-16/X-25 and CRC-32C in mc/ref (check values 0x906E / 0xE3069283 asserted at start)", "bursts that move a block boundary (per the reference tokenizer) are outside the must-reject class, as the statement says"})
 }
 
